@@ -52,6 +52,7 @@ macro_rules! wit_try {
         w!(if $ra.cap > tcap { $ra.len == tcap + 1 } else { $ra.len == 0 }, "source one bit longer than the target capacity (or empty if it cannot be longer)");
         w!($ra.len % $tw != 0 && $ra.len <= tcap && $ra.v.bit($ra.len - 1), "fitting length that is not a multiple of the target word, top bit set");
         w!($ra.len + 8 <= $ra.cap && !$ra.v.is_zero(), "non-zero value below unused storage");
+        let _sep = nd::bool(); // keeps counterexample traces distinct from witness traces (playback dedupe)
     };
 }
 
@@ -62,6 +63,7 @@ macro_rules! wit_any {
         w!($ra.len == 0, "empty source");
         w!($ra.len % 64 != 0 && $ra.v.bit($ra.len - 1), "length that is not a multiple of 64, top bit set");
         w!($ra.len + 8 <= $ra.cap && !$ra.v.is_zero(), "non-zero value below unused storage");
+        let _sep = nd::bool(); // keeps counterexample traces distinct from witness traces (playback dedupe)
     };
 }
 
@@ -71,6 +73,7 @@ macro_rules! wit_conc {
         w!($ra.len == 0 || $ra.v.bit($ra.len - 1), "empty, or top bit set");
         w!($ra.len == 0 || !$ra.v.bit($ra.len - 1), "empty, or top bit clear");
         w!($ra.len < 2 || ($ra.v.bit(0) && !$ra.v.bit(1)), "shorter than two bits, or bits 0 and 1 differ");
+        let _sep = nd::bool(); // keeps counterexample traces distinct from witness traces (playback dedupe)
     };
 }
 
@@ -289,6 +292,7 @@ macro_rules! h_rebuild_bvf {
             w!(ra.len == ra.cap, "full");
             w!(ra.len == 0, "empty");
             w!(ra.len % 8 == 3 && ra.v.bit(ra.len - 1), "partial last word, top bit set");
+            let _sep = nd::bool(); // keeps counterexample traces distinct from witness traces (playback dedupe)
             let (data, len) = a.into_inner();
             assert!(len == ra.len, "C12: into_inner() returned a different length");
             let b = Bvf::new(data, len);
@@ -313,6 +317,7 @@ macro_rules! h_rebuild_bvd {
             w!(ra.len == ra.cap, "full");
             w!(ra.len == 0, "empty");
             w!(ra.len + 64 <= ra.cap && ra.len % 8 == 3 && ra.v.bit(ra.len - 1), "spare word, partial last word, top bit set");
+            let _sep = nd::bool(); // keeps counterexample traces distinct from witness traces (playback dedupe)
             let (data, len) = a.into_inner();
             assert!(len == ra.len && data.len() * 64 == ra.cap, "C12: into_inner() returned a different length or storage size");
             let b = Bvd::new(data, len);
